@@ -309,6 +309,8 @@ def replay(path):
         if hasattr(mod, "prepare_env"):
             mod.prepare_env()
         return fuzzprop.replay(pid, mod, os.path.dirname(path))
+    if hasattr(mod, "replay_record"):
+        return mod.replay_record(rec, os.path.dirname(path))
     for v in getattr(mod, "VARIANTS", ["plain"]):
         build.ensure(v)
     if hasattr(mod, "prepare"):
